@@ -945,6 +945,58 @@ func (p *PathSummary) AtomEqualities() (feasible bool, eq [][2]string) {
 	return
 }
 
+// ConstFeasible: the path's comparisons of a term with constants are consistent: no term is found equal to two
+// different constants, nor equal and not equal to the same one.  (go/ssa loads `x.f` anew for every test, so two
+// switches over the same field enumerate combinations that cannot happen; the terms are compared as rendered, which is
+// only meaningful for memory the summarised code does not write — the caller's responsibility.)
+func (p *PathSummary) ConstFeasible() bool {
+	eqTrue := map[string]map[string]bool{}
+	eqFalse := map[string]map[string]bool{}
+	for _, c := range p.Conds {
+		if c.Op != "==" && c.Op != "!=" {
+			continue
+		}
+		x, y := c.X, c.Y
+		isConst := func(t string) bool {
+			if t == "" {
+				return false
+			}
+			for _, r := range t {
+				if !(r >= '0' && r <= '9' || r == '-') {
+					return false
+				}
+			}
+			return true
+		}
+		if isConst(x) && !isConst(y) {
+			x, y = y, x
+		}
+		if !isConst(y) || isConst(x) {
+			continue
+		}
+		holds := (c.Op == "==") != c.Neg
+		m := eqFalse
+		if holds {
+			m = eqTrue
+		}
+		if m[x] == nil {
+			m[x] = map[string]bool{}
+		}
+		m[x][y] = true
+	}
+	for x, ks := range eqTrue {
+		if len(ks) > 1 {
+			return false
+		}
+		for k := range ks {
+			if eqFalse[x][k] {
+				return false
+			}
+		}
+	}
+	return true
+}
+
 // EnumCase returns the enum constant the path dispatches on: the conditions
 // `term == CONST` (true) or all `term == CONST` false (→ "default").
 func (p *PathSummary) EnumCase(term string) (val string, isDefault bool, ok bool) {
